@@ -39,6 +39,9 @@ type GateEv struct {
 	Res   string `json:"res,omitempty"`
 	Tick  uint64 `json:"tick,omitempty"`
 	K     int    `json:"k,omitempty"`
+	// ticks whose WhenQueue channel (subscribed right after the mutation was
+	// queued) is still open; read AFTER Qtick
+	WqOpen []uint64 `json:"wqopen"`
 }
 
 type HandlerEv struct {
@@ -142,6 +145,7 @@ func Run(sc Scenario, prefix []int) (lines []any, taken []int, enabled [][]int) 
 	fin := map[string]am.HandlerFinal{}
 	nestedRes := map[string]am.Result{}
 	whenq := map[string]<-chan struct{}{}
+	whenqTick := map[string]uint64{}
 	for _, s := range names {
 		s := s
 		if s == am.StateException {
@@ -159,7 +163,7 @@ func Run(sc Scenario, prefix []int) (lines []any, taken []int, enabled [][]int) 
 				mu.Lock(); nestedRes[n] = r; mu.Unlock()
 				if r != am.Executed && r != am.Canceled {
 					ch := e.Machine().WhenQueue(r)
-					mu.Lock(); whenq[n] = ch; mu.Unlock()
+					mu.Lock(); whenq[n] = ch; whenqTick[n] = uint64(r); mu.Unlock()
 				}
 			}
 			mu.Lock(); hopen--; lines = append(lines, HandlerEv{"hend", s + "State", hopen}); mu.Unlock()
@@ -171,8 +175,19 @@ func Run(sc Scenario, prefix []int) (lines []any, taken []int, enabled [][]int) 
 	s.Attach(m)
 	defer s.Detach()
 	snap := func(role int, point string) GateEv {
-		return GateEv{Ev: "gate", Role: role, Point: point, Qlen: int(m.QueueLen()),
-			Qtick: m.QueueTick(), Proc: am.VerifQueueProcessing(m)}
+		ev := GateEv{Ev: "gate", Role: role, Point: point, Qlen: int(m.QueueLen()),
+			Qtick: m.QueueTick(), Proc: am.VerifQueueProcessing(m), WqOpen: []uint64{}}
+		mu.Lock()
+		for n, ch := range whenq {
+			select {
+			case <-ch:
+			default:
+				ev.WqOpen = append(ev.WqOpen, whenqTick[n])
+			}
+		}
+		mu.Unlock()
+		sort.Slice(ev.WqOpen, func(i, j int) bool { return ev.WqOpen[i] < ev.WqOpen[j] })
+		return ev
 	}
 	results := map[[2]int]am.Result{}
 	curK := map[int]int{}
@@ -208,7 +223,7 @@ func Run(sc Scenario, prefix []int) (lines []any, taken []int, enabled [][]int) 
 				if r != am.Executed && r != am.Canceled {
 					// subscribe right away, before the mutation gets processed
 					ch := m.WhenQueue(r)
-					mu.Lock(); whenq[stateOf(c, k)] = ch; mu.Unlock()
+					mu.Lock(); whenq[stateOf(c, k)] = ch; whenqTick[stateOf(c, k)] = uint64(r); mu.Unlock()
 				}
 				s.Gate("return")
 			}
